@@ -15,7 +15,8 @@ import time
 
 VERIF = os.path.dirname(os.path.dirname(os.path.abspath(__file__)))
 LEAN_DIR = os.path.join(VERIF, 'lean')
-EVIDENCE_DIR = os.path.join(VERIF, 'evidence')
+# VERIF_EVIDENCE_DIR lets the self-tests (tools/seedtest.py) keep their runs out of the committed evidence
+EVIDENCE_DIR = os.environ.get('VERIF_EVIDENCE_DIR') or os.path.join(VERIF, 'evidence')
 REPLAY_DIR = os.path.join(EVIDENCE_DIR, 'replay')
 FINDINGS_FILE = os.path.join(VERIF, 'known_findings.json')
 DRIVER_EXE = os.path.join(LEAN_DIR, '.lake', 'build', 'bin', 'driver')
@@ -393,7 +394,7 @@ class Ctx:
         path = os.path.join(REPLAY_DIR, '%s-%s.json' % (self.id, h))
         with open(path, 'w') as f:
             json.dump(body, f, indent=1, default=str)
-        return os.path.relpath(path, VERIF)
+        return os.path.relpath(path, VERIF) if path.startswith(VERIF + os.sep) else path
 
     def _write_evidence(self, bad, lines):
         os.makedirs(EVIDENCE_DIR, exist_ok=True)
